@@ -1242,7 +1242,15 @@ pub fn child18(seed: u64, idx: u64) -> Value {
                 let res_warm = if rng.chance(2, 3) { wl } else { rng.usize_below(6) };
                 let bps = *rng.pick(&[8usize, 12, 16, 17, 24, 25, 7, 26, 32]);
                 let lim = 1i64 << (bps.clamp(1, 31) - 1);
-                let warm: Vec<i32> = (0..wl).map(|_| if rng.chance(1, 10) { lim as i32 } else { rng.range(-lim, lim - 1) as i32 }).collect();
+                let mut warm: Vec<i32> = (0..wl).map(|_| if rng.chance(1, 10) { lim as i32 } else { rng.range(-lim, lim - 1) as i32 }).collect();
+                // one call in four: warm-up values over the exact limits of the width and their
+                // neighbours, in every order (cf. the Verbatim grid)
+                if rng.chance(1, 4) {
+                    let pool = [0i64, lim - 1, lim, -lim, -lim - 1, lim - 1, -lim];
+                    for w in warm.iter_mut() {
+                        *w = *rng.pick(&pool) as i32;
+                    }
+                }
                 let order = rng.usize_below(3);
                 // one case in four: the residual argument is not built with `Residual::new` but is
                 // what the crate's own parser hands out for a legal foreign residual coded with
